@@ -170,9 +170,15 @@ def gen_dense(rng, n, kind, shape="random", dmax=3, phys=False, forest=False, sc
     return Net(ts, name, "dense", "float" if kind in ("float", "floatc") else kind, ph)
 
 
-def gen_hyper(rng, nt, kind, dmax=2, uniform_dim=True, scalar=False):
+def gen_hyper(rng, nt, kind, dmax=2, uniform_dim=True, scalar=False, bonds_only=False):
     """a random factor-graph tree: tensors and labels alternate; labels of degree 1 (dangling),
-    2 (bonds) and >= 3 (hyper)."""
+    2 (bonds) and >= 3 (hyper).  bonds_only: every label on exactly two tensors (the hyper flavours
+    compute the messages of any other label by dividing a product, which needs non-vanishing
+    entries: signed / complex data is driven on plain bonds only)."""
+    if bonds_only:
+        net = gen_dense(rng, nt, kind, dmax=2 if uniform_dim else dmax, scalar=scalar)
+        net.gk = "hyper"
+        return net
     d0 = int(rng.integers(2, dmax + 1))
     tens = [[]]          # labels of each tensor
     labels = []          # [holders]
@@ -515,8 +521,12 @@ def make_bp(flav, net, tn, opts, rng):
             kw[k] = opts[k]
     custom = opts.get("init", "default") == "custom"
 
+    cplx = any(np.iscomplexobj(a) for _, a in net.tensors)
+
     def fill(shape):
-        return rng.uniform(0.5, 1.5, size=shape)
+        # a user-supplied initialisation in the dtype of the network
+        a = rng.uniform(0.5, 1.5, size=shape)
+        return a + 1j * rng.uniform(-0.5, 0.5, size=shape) if cplx else a
 
     if flav == "D1BP":
         kw["local_convergence"] = opts.get("lc", True)
@@ -531,7 +541,7 @@ def make_bp(flav, net, tn, opts, rng):
                 if len(tids) == 2:
                     d = tn.ind_size(ix)
                     for tid in tids:
-                        a = rng.normal(size=(d, d)) + (1j * rng.normal(size=(d, d)) if net.kind == "cplx" else 0)
+                        a = rng.normal(size=(d, d)) + (1j * rng.normal(size=(d, d)) if cplx else 0)
                         msgs[ix, tid] = a @ a.conj().T + 0.1 * np.eye(d)
             kw["messages"] = msgs
         return bpm.D2BP(tn, **kw)
